@@ -250,6 +250,15 @@ def sweep_check(case):
                 if ok:
                     sw_scale = max(scale, max(float(np.max(np.abs(e))) for e in eager_sw))
                     close("filter_vmap_construct_equals_eager", outs, np.stack(eager_sw), k=key + ":filter_vmap:" + name, t=1e-10 * sw_scale)
+            # the fully compiled sweep: construction and call traced together under filter_jit(filter_vmap(.))
+            ok, outs = res.lib(
+                "jit_filter_vmap_construct_and_call",
+                lambda: eqx.filter_jit(lambda vs, x: eqx.filter_vmap(lambda v: make(v)(x))(vs))(jnp.asarray(vals), jU[0]),
+                key=key + ":jit_filter_vmap:" + name,
+            )
+            if ok:
+                sw_scale = max(scale, max(float(np.max(np.abs(e))) for e in eager_sw))
+                close("jit_filter_vmap_sweep_equals_eager", outs, np.stack(eager_sw), k=key + ":jit_filter_vmap:" + name, t=1e-10 * sw_scale)
     res.nontrivial = bool(swept_distinct)
     return res
 
